@@ -81,6 +81,15 @@ def run_case(c):
         nm = 'e%d' % i
         scen.add_trashed(W, t, nm, None, raw=raw, payload=('file', 'ldang', 'tree', 'ldir', 'empty')[(i + len(c['ms'])) % 5])
         ents.append((nm, cls, raw.encode(), t))
+    if c['days'] is not None and c['days'] <= 365:
+        t0 = tds[0]
+        rel = t0 != scen.HOME_TRASH
+        raw_new = '[Trash Info]\nPath=%s\nDeletionDate=%s\n' % ('w/keep' if rel else '/home/u/w/keep', NOW)
+        raw_old = '[Trash Info]\nPath=%s\nDeletionDate=1999-01-01T00:00:00\n' % ('w/keep.trashinfo' if rel else '/home/u/w/keep.trashinfo')
+        scen.add_trashed(W, t0, 'keep', None, raw=raw_new, payload='file', tag='recent')
+        scen.add_trashed(W, t0, 'keep.trashinfo', None, raw=raw_old, payload='tree', tag='old')
+        ents.append(('keep', 'now', raw_new.encode(), t0))
+        ents.append(('keep.trashinfo', 'farpast', raw_old.encode(), t0))
     for t in tds:
         W.file(t + '/files/orphan', 'orphan payload\n')
         W.file(t + '/info/README', 'not a trashinfo\n')
